@@ -72,14 +72,56 @@ pub fn tokenize_type(text: &str) -> Vec<String> {
 /// The spacing policy used to turn the specification's token sequences into text: a blank after
 /// `,`, `:` and `mut`, nothing else (`(` `)` of the empty tuple type stay adjacent: `void = "()"`).
 pub fn render_type(tokens: &[String]) -> String {
+    let word = |t: &str| t.chars().all(|c| c.is_ascii_alphanumeric() || c == '_');
     let mut s = String::new();
-    for t in tokens {
+    for (i, t) in tokens.iter().enumerate() {
         s.push_str(t);
-        if t == "," || t == ":" || t == "mut" {
+        // (two adjacent words only occur in near-miss texts; they must stay two tokens)
+        let next_is_word = tokens.get(i + 1).is_some_and(|n| word(n));
+        if t == "," || t == ":" || t == "mut" || (word(t) && next_is_word) {
             s.push(' ');
         }
     }
     s
+}
+
+/// Near misses (texts of the universe with a token dropped or replaced): the implementation's
+/// grammar must accept / reject them as the specification's parser model does, denote the same
+/// type and consume the same number of tokens.
+fn near_misses(dir: &str, mm: &mut Mismatches) -> (u64, u64) {
+    use pest::Parser;
+    use simplesl_parser::{Rule, SimpleSLParser};
+    let path = format!("{dir}/print_neg.ndjson");
+    if !std::path::Path::new(&path).exists() {
+        return (0, 0);
+    }
+    let (mut n, mut accepted) = (0u64, 0u64);
+    for row in read_ndjson(&path) {
+        let toks = split_tokens(row["text"].as_str().unwrap());
+        let text = render_type(&toks);
+        n += 1;
+        let want_ok = row["ok"].as_i64() == Some(1);
+        let got = catch(|| Type::from_str(&text));
+        match (&got, want_ok) {
+            (Ok(Err(_)), false) => {}
+            (Ok(Ok(t)), true) => {
+                accepted += 1;
+                let consumed = catch(|| {
+                    SimpleSLParser::parse(Rule::r#type, &text).ok()
+                        .and_then(|mut ps| ps.next()).map(|p| tokenize_type(&text[..p.as_span().end()]).len())
+                });
+                let want_rest = row["rest"].as_u64().unwrap() as usize;
+                if type_to_wire(t) != canon_type(&row["t"]) || consumed != Ok(Some(want_rest - 1)) {
+                    mm.push("near_miss", json!({"text": text, "expected_type": canon_type(&row["t"]), "got_type": type_to_wire(t),
+                        "expected_tokens_consumed": want_rest - 1, "got_tokens_consumed": format!("{consumed:?}")}));
+                }
+            }
+            (Ok(Ok(t)), false) => mm.push("near_miss", json!({"text": text, "expected": "rejected", "got_type": type_to_wire(t)})),
+            (Ok(Err(_)), true) => mm.push("near_miss", json!({"text": text, "expected_type": canon_type(&row["t"]), "got": "ParseTypeError"})),
+            (Err(p), _) => mm.push("near_miss", json!({"text": text, "panic": p})),
+        }
+    }
+    (n, accepted)
 }
 
 fn split_tokens(joined: &str) -> Vec<String> {
@@ -219,12 +261,14 @@ fn types(dir: &str, reps: usize, filter_texts: usize) -> Value {
                 "implementation_printed": seen.iter().map(|t| render_type(t)).collect::<Vec<_>>()}));
         }
     }
+    let (n_neg, n_neg_accepted) = near_misses(dir, &mut mm);
     json!({
+        "near_misses": n_neg, "near_misses_accepted_as_prefix": n_neg_accepted,
         "universe": rows.len(), "texts": n_texts, "parsed_texts": n_parse, "printed_instances": n_print,
         "filter_programs": n_filter, "filter_skipped_no_default": n_filter_skipped, "pool": pool.len(),
         "distinct_texts_printed_by_impl": orders_seen,
         "types_with_several_texts": multi_order_types, "of_which_impl_showed_several": multi_order_covered,
-        "evaluations": n_parse + 2 * n_print + n_filter,
+        "evaluations": n_parse + 2 * n_print + n_filter + n_neg,
         "mismatch_counts": mm.counts(), "mismatches": mm.items(), "samples": samples,
     })
 }
@@ -499,6 +543,12 @@ fn vals(dir: &str) -> Value {
         if Some(obs.as_str()) != row["prog"].as_str() {
             mm.push("program", json!({"value": row["v"], "text": text, "expected": row["prog"], "got": obs, "detail": detail}));
         }
+        // parentheses around the whole text are transparent in a program
+        let paren = format!("({text})");
+        let (obs, detail) = observe(run_program(&interp, &paren), &v);
+        if Some(obs.as_str()) != row["paren_prog"].as_str() {
+            mm.push("program", json!({"value": row["v"], "text": paren, "expected": row["paren_prog"], "got": obs, "detail": detail}));
+        }
         match row["prog"].as_str() {
             Some("ok") => n_prog_ok += 1,
             _ => n_prog_overflow += 1,
@@ -507,8 +557,52 @@ fn vals(dir: &str) -> Value {
             samples.push(json!({"text": text, "tag": v.as_type().to_string(), "from_str": row["from_str"], "program": row["prog"]}));
         }
     }
-    json!({"values": n, "program_route_ok": n_prog_ok, "program_route_rejected_min_int": n_prog_overflow,
-           "max_leading_brackets": max_depth, "evaluations": 4 * n,
+    // near misses for Variable::from_str: value texts with one token dropped
+    let mut n_neg = 0u64;
+    let neg_path = format!("{dir}/print_negvals.ndjson");
+    if std::path::Path::new(&neg_path).exists() {
+        for row in read_ndjson(&neg_path) {
+            let toks = row["toks"].as_array().unwrap();
+            let atoms = row["atoms"].as_array().unwrap();
+            let mut text = String::new();
+            let mut prev_atom = false;
+            for (t, atom) in toks.iter().zip(atoms) {
+                let a = t["a"].as_str().unwrap();
+                let piece = match a {
+                    "float" | "str" => format!("{:?}", build_val(atom)),
+                    _ => t["c"].as_str().unwrap().to_string(),
+                };
+                if prev_atom && a != "p" {
+                    text.push(' '); // two atoms in a row stay two tokens
+                }
+                text.push_str(&piece);
+                if piece == "," {
+                    text.push(' ');
+                }
+                prev_atom = a != "p";
+            }
+            n_neg += 1;
+            let st = row["st"].as_str().unwrap();
+            let got = catch(|| Variable::from_str(&text));
+            let ok = match (&got, st) {
+                (Ok(Ok(w)), "ok") => { let v = build_val(&row["v"]); strict_eq(w, &v) && w.as_type() == v.as_type() }
+                (Ok(Err(Error::IntegerOverflow(_))), "overflow") => true,
+                (Ok(Err(Error::IntegerOverflow(_))), "syntax") => false,
+                (Ok(Err(_)), "syntax") => true,
+                _ => false,
+            };
+            if !ok {
+                let shown = match &got {
+                    Ok(Ok(w)) => json!({"value": format!("{w:?}"), "tag": w.as_type().to_string()}),
+                    Ok(Err(e)) => json!({"error": e.to_string()}),
+                    Err(p) => json!({"panic": p}),
+                };
+                mm.push("near_miss", json!({"text": text, "expected": st, "expected_value": row["v"], "got": shown}));
+            }
+        }
+    }
+    json!({"values": n, "near_misses": n_neg, "program_route_ok": n_prog_ok, "program_route_rejected_min_int": n_prog_overflow,
+           "max_leading_brackets": max_depth, "evaluations": 5 * n + n_neg,
            "mismatch_counts": mm.counts(), "mismatches": mm.items(), "samples": samples})
 }
 
